@@ -55,8 +55,24 @@ class Fixture:
             # compiled (local) call and the run-time lookup (call_other) is judged
             for fn in FN:
                 defs = [q for q, _ in parents if self.defined_in_closure(q, fn)]
-                if len(defs) > 1 and fn not in self.progs[x]['funcs'] and rng.random() < 0.6: self.progs[x]['funcs'][fn] = ''
+                if len(defs) > 1 and fn not in self.progs[x]['funcs'] and rng.random() < 0.35: self.progs[x]['funcs'][fn] = ''
+        # a name that reaches a program through two parents and is not redefined there - with non-public definitions on both
+        # sides - is the shape in which the compiler keeps an extra "alias" slot per inherit level
+        for x in names:
+            ps = self.progs[x]['parents']
+            if len(ps) == 2 and rng.random() < 0.5:
+                fn = rng.choice(FN)
+                if fn in self.progs[x]['funcs']: del self.progs[x]['funcs'][fn]
+                for q, _ in ps:
+                    self.progs[q]['funcs'][fn] = rng.choice(('static', 'private', 'protected', 'private', ''))
         self.names = names
+        self.replacer = None
+        if rng.random() < 0.4:
+            # a program that replaces itself by its only parent (replace_program): afterwards the object runs the parent's
+            # program under its own name, and calls must resolve exactly as in the parent
+            x = rng.choice(names)
+            self.progs['r'] = {'parents': [(x, '')], 'funcs': {}}
+            self.names = names + ['r']; self.replacer = x
 
     def closure(self, x):
         out = [x]
@@ -84,6 +100,8 @@ class Fixture:
 
     def text(self, x):
         pr = self.progs[x]
+        if x == 'r' and self.replacer:
+            return 'inherit "/c/%s";\nvoid create() { replace_program("/c/%s"); }\n' % (self.replacer, self.replacer)
         L = []
         for q, m in pr['parents']: L.append('%sinherit "/c/%s";' % (m + ' ' if m else '', q))
         L.append('string lv_%s = "%s";' % (x, x.upper()))
@@ -111,8 +129,14 @@ def _calls(rng, fx, n):
     for _ in range(n):
         ob = rng.choice(fx.names + fx.names[-2:] * 2)
         fn = rng.choice(FN + ['f9'])
+        amb = [(o2, f2) for o2 in fx.names for f2 in FN if len(_candidates(fx.progs, o2, f2)) > 1]
+        if amb and rng.random() < 0.2: ob, fn = rng.choice(amb)
         kind = rng.choice(('co', 'co', 'cco', 'cco', 'aco', 'aco', 'self', 'sself', 'local', 'super', 'fp', 'callout', 'scallout', 'cmd', 'reload', 'sco', 'coldsco', 'coldsco', 'saco'))
         lvl = rng.choice(fx.closure(ob))
+        if ob == 'r':
+            # the helper functions of a program are gone once it has replaced itself: only plain calls, and helpers of its parents
+            lvl = rng.choice(fx.closure(ob)[1:])
+            if kind in ('self', 'sself', 'callout', 'scallout', 'cmd'): kind = rng.choice(('co', 'cco', 'sco', 'coldsco', 'local', 'super', 'fp'))
         if kind in ('aco', 'saco'):
             # array form of call_other (objects, or file names that the driver finds or loads): two to four targets, the interesting one not first
             others = [rng.choice(fx.names) for _ in range(rng.randint(1, 3))]
@@ -238,11 +262,25 @@ def _lookup(fxm, ob, fn):
     return r[0]
 
 
+def _candidates(fxm, ob, fn):
+    def find(x):
+        if fn in fxm[x]['funcs']: return [(x, fxm[x]['funcs'][fn])]
+        r = []
+        for q, m in fxm[x]['parents']: r += find(q)
+        return r
+    return find(ob)
+
+
 def _expect(fxm, call):
     """expected outcome where the rules are unambiguous, else None"""
     kind, ob, lvl, fn = call
     d = _lookup(fxm, ob, fn)
-    if d == 'ambiguous': return None
+    if d == 'ambiguous':
+        # several definitions reach the object and none redefines the name: whichever the driver picks, a call_other is
+        # refused when every candidate is static, private or protected
+        if kind in ('co', 'cco', 'self', 'sself', 'reload', 'sco', 'coldsco') and all(m in ('static', 'private', 'protected') for _, m in _candidates(fxm, ob, fn)):
+            return ('r', 'int:0', [])
+        return None
     # inherit modifiers change visibility of inherited functions: leave those cases to the differential oracle
     def path_mods(x, target):
         if x == target: return []
@@ -266,9 +304,9 @@ def _expect(fxm, call):
         if d is None: return ('r', 'int:0', [])
         prog, mod = d
         pm = path_mods(ob, prog) or []
-        if any(pm): return None
         tag = '%s.%s:%s' % (prog, fn, prog.upper())
-        if mod in ('static', 'private', 'protected'): return ('r', 'int:0', [])
+        if mod in ('static', 'private', 'protected'): return ('r', 'int:0', [])      # inherit modifiers only restrict further
+        if any(pm): return None
         return ('r', tag, [tag])
     if kind in ('callout', 'scallout'):
         if d is None: return ('f', None, [])
